@@ -970,6 +970,76 @@ fn generators_case(cfg: &Cfg, store: &IdStore, case: u64, rng: &mut Rng, rep: &m
     }
 }
 
+// ------------------------------------------------------------------------------------------ RNS-plain wrapper
+/// `RnspHeContext` holds one ordinary context per plain modulus over the same coefficient modulus. Its
+/// `parameters_set()` is the wrapper's validation verdict: it must be true exactly when every component
+/// parameter set is admissible (the independent predicate) - one bad plain modulus among good ones included.
+fn rnsp_case(cfg: &Cfg, store: &IdStore, case: u64, rng: &mut Rng, rep: &mut Report) {
+    use heathcliff::app::rns_plain::{RnspEncryptionParameters, RnspHeContext};
+    let env = Env { cfg, grp: "rnsp_wrapper", case, store, cache: None };
+    let scheme = if rng.chance(1, 2) { SchemeType::BFV } else { SchemeType::BGV };
+    let n = 8usize << rng.below(4);
+    let k = 1 + rng.usize_below(3);
+    let qs = crate::he::ntt_primes(n, 30 + rng.below(21) as u32, k, rng.usize_below(4));
+    if qs.len() < k { rep.out_of_precondition += 1; return; }
+    let big_q = refm::product(&qs);
+    let count = 1 + rng.usize_below(4);
+    // which positions are inadmissible: none / exactly one (any position) / several / all
+    let bad_mask: u32 = match rng.below(8) { 0 | 1 | 2 => 0, 3 | 4 | 5 => 1 << rng.below(count as u64), 6 => rng.below(1 << count) as u32, _ => (1 << count) - 1 };
+    let mut ts: Vec<u64> = vec![];
+    for i in 0..count {
+        let t = if bad_mask >> i & 1 == 1 {
+            match rng.below(3) {
+                0 => qs[rng.usize_below(k)],                                   // shares a factor with q
+                1 => qs[0] * (2 + rng.below(3)),                                // multiple of a coefficient prime
+                _ => { if big_q.bits() <= 58 { let mut v = (1u64 << big_q.bits()) + 1 + 2 * rng.below(1000); while qs.iter().any(|&q| refm::gcd(q, v) != 1) { v += 2; } v } else { qs[k - 1] } } // t >= q
+            }
+        } else {
+            let bits = 2 + rng.below((big_q.bits() as u64 - 3).min(40)) as u32;
+            let mut v = (1u64 << (bits - 1)) | rng.below(1u64 << (bits - 1));
+            let mut tries = 0;
+            while (qs.iter().any(|&q| refm::gcd(q, v) != 1) || ts.contains(&v) || BigU::from_u64(v) >= big_q) && tries < 100 { v = (1u64 << (bits - 1)) | rng.below(1u64 << (bits - 1)); tries += 1; }
+            v
+        };
+        ts.push(t);
+    }
+    let infos = Infos::new();
+    let verdicts: Vec<Verdict> = ts.iter().map(|&t| level_verdict(scheme, n, &qs, t, SecurityLevel::None, &infos)).collect();
+    let want = verdicts.iter().all(|v| v.tri() == Tri::Yes);
+    let n_bad = verdicts.iter().filter(|v| v.tri() != Tri::Yes).count();
+    let c = Cand { scheme, n, qs: Some(&qs[..]), t: ts[0], sec: SecurityLevel::None, expand: true, special: false };
+    let desc = format!("plain moduli {:?} (reference: {} inadmissible: {:?})", ts, n_bad, verdicts.iter().map(|v| v.first()).collect::<Vec<_>>());
+    let mods = match lib(|| (ts.iter().map(|&t| Modulus::new(t)).collect::<Vec<_>>(), qs.iter().map(|&q| Modulus::new(q)).collect::<Vec<_>>())) { Ok(m) => m, Err(_) => { rep.out_of_precondition += 1; return; } };
+    let class = format!("{}_of_{}_bad", if n_bad == 0 { "0".to_string() } else if n_bad == count { "all".to_string() } else { "some".to_string() }, if count == 1 { "1" } else { "many" });
+    rep.eval(Some(&format!("rnsp/{:?}/{}/{:?}/{:?}", scheme, n, qs, ts)));
+    for expand in [true, false] {
+        let parms = RnspEncryptionParameters::new(scheme).set_poly_modulus_degree(n).set_plain_modulus(mods.0.clone()).set_coeff_modulus(mods.1.clone());
+        let ctx = match lib(|| RnspHeContext::new(parms, expand, SecurityLevel::None)) {
+            Ok(c) => c,
+            Err(p) => { env.viol(rep, "RnspHeContext::new", &class, "panic", format!("RnspHeContext::new panicked: {} ; {}", p.0, desc), &c); return; }
+        };
+        rep.count("rnsp_wrapper_verdicts(bad_components)", &class);
+        if ctx.components.len() != count { env.viol(rep, "RnspHeContext::new", &class, "component_count", format!("{} components for {} plain moduli ; {}", ctx.components.len(), count, desc), &c); return; }
+        match lib(|| ctx.parameters_set()) {
+            Err(p) => env.viol(rep, "RnspHeContext::parameters_set", &class, "panic", format!("parameters_set panicked: {} ; {}", p.0, desc), &c),
+            Ok(got) => {
+                if got != want { env.viol(rep, "RnspHeContext::parameters_set", &class, if got { "accepts_invalid" } else { "rejects_valid" }, format!("wrapper verdict {} but the reference verdict is {} ; {}", got, want, desc), &c); }
+            }
+        }
+        // each component agrees with the reference verdict for its own plain modulus and reports that plain modulus
+        for (i, comp) in ctx.components.iter().enumerate() {
+            let got = comp.parameters_set(); let w = verdicts[i].tri() == Tri::Yes;
+            if got != w { env.viol(rep, "RnspHeContext::components", &class, if got { "accepts_invalid" } else { "rejects_valid" }, format!("component {} verdict {} but reference {} ({}) ; {}", i, got, w, verdicts[i].first(), desc), &c); }
+        }
+        if want {
+            match lib(|| ctx.plain_modulus().iter().map(|m| m.value()).collect::<Vec<u64>>()) {
+                Ok(pm) => if pm != ts { env.viol(rep, "RnspHeContext::plain_modulus", &class, "value", format!("plain_modulus() = {:?} ; {}", pm, desc), &c); },
+                Err(p) => env.viol(rep, "RnspHeContext::plain_modulus", &class, "panic", format!("plain_modulus panicked: {} ; {}", p.0, desc), &c),
+            }
+        }
+    }
+}
+
 pub fn run(cfg: &Cfg, rep: &mut Report) -> PropMeta {
     let u = Universe::new();
     let store = IdStore::new();
@@ -998,6 +1068,10 @@ pub fn run(cfg: &Cfg, rep: &mut Report) -> PropMeta {
     if want("generators") {
         let n = 17 + 1 + cfg.n(400, 6000) as u64;
         run_cases(cfg, "generators", n, rep, |i, rng, rep| generators_case(cfg, &store, i, rng, rep));
+    }
+    if want("rnsp_wrapper") {
+        let n = cfg.n(600, 8000) as u64;
+        run_cases(cfg, "rnsp_wrapper", n, rep, |i, rng, rep| rnsp_case(cfg, &store, i, rng, rep));
     }
     rep.max("distinct_parameter_objects_in_collision_check", store.len() as f64);
     rep.note("use_special_prime_for_encryption is not part of the hashed words: two parameter objects that differ only in that flag share their id (documented word layout = scheme, N, q_i, t); the collision check identifies objects by those words");
